@@ -4,16 +4,21 @@
 (* discipline part of C03): WHICH THREAD runs which critical section of    *)
 (* publisher<T>::queue, and what it does between its critical sections.    *)
 (* The critical sections themselves (AdvanceLk, AdvSuspendLk, GetValueLk,  *)
-(* PushLk, Join, Leave, KickCS, Close, ...) are Publisher.tla's: this      *)
-(* module only conjoins them with the program counters of the threads.     *)
+(* PushLkCore, Join, Leave, KickCS, CloseBody, ...) are Publisher.tla's:   *)
+(* this module only conjoins them with the program counters of threads.    *)
 (*                                                                         *)
 (* Threads:                                                                *)
 (*   P    the publisher thread: publish (single/batch), close, kick,       *)
 (*        ~publisher.  One call = critical section 1 (up to lk.unlock()),  *)
 (*        the wake-up loop outside the lock, and -- for publish/close --   *)
 (*        critical section 2 (lk.lock(); swap of the wake-up buffers;      *)
-(*        unlock by ~unique_lock), publisher.h:254-274.  kick has no       *)
-(*        second critical section (276-288).                               *)
+(*        unlock by ~unique_lock), publisher.h push_lk.  kick has no       *)
+(*        second critical section.                                         *)
+(*   P2   (TwoPub) a second thread that publishes / closes through the     *)
+(*        same publisher: its critical sections may run while P is in its  *)
+(*        wake-up loop (between the unlock and the first resume, and       *)
+(*        between two resumes) and vice versa.  Each publishing thread     *)
+(*        resumes exactly the waiters ITS critical section collected.      *)
 (*   s    one thread per subscriber identity s: constructs its subscriber  *)
 (*        (recent / at position / copy of another thread's subscriber),    *)
 (*        calls next() in one of the whole-call forms, destroys it.        *)
@@ -26,79 +31,104 @@
 (*                 which therefore runs its get_value_lk (in the middle of *)
 (*                 the wake-up loop, holding no lock) before it goes on    *)
 (*                 waking the remaining waiters.                           *)
-(* Grain = lock grain of the controlled scheduler (vsched, lock_grain):    *)
-(* one step = one lock..unlock critical section, or the code between an    *)
-(* unlock and the next lock/wait of that thread when it has a visible      *)
-(* effect (the wake-up loop: PWake).  Releasing several blocked threads    *)
-(* (sync_awaiter flags) is one uninterrupted stretch of code.              *)
+(* Grain: one step = one lock..unlock critical section, or one stretch of  *)
+(* code outside the lock that matters:                                     *)
+(*   - the wake-up loop, ONE WAITER PER STEP (the controlled scheduler     *)
+(*     parks the waking thread at sync_awaiter's notify, i.e. after the    *)
+(*     released thread's flag is set; a resumed coroutine runs up to the   *)
+(*     lock of its get_value);                                             *)
+(*   - what follows the unlock of get_value up to the return of next()     *)
+(*     (TTail / the beginning of PWake): the value next() hands out was    *)
+(*     copied while the lock was held -- whatever other threads' critical  *)
+(*     sections do to the window between the unlock and the return (a      *)
+(*     publish whose resize() destroys the retained element) cannot        *)
+(*     change it.                                                          *)
 (***************************************************************************)
 EXTENDS Publisher
 
-CONSTANTS CStyles      \* subset of {"block","poll","coro"}: whole-call forms the subscriber threads use
+CONSTANTS CStyles,     \* subset of {"block","poll","coro"}: whole-call forms the subscriber threads use
+          TwoPub       \* TRUE: a second publishing thread P2 (then no coroutine form: P2 only releases blocked threads)
 
-VARIABLES ppc,      \* publisher thread: "idle" | "wake" (parked after the unlock, wake-up loop to run)
+VARIABLES ppc,      \* publisher thread: "idle" | "wake" (in the wake-up loop, outside the lock)
                     \*                   | "co" (inside the loop, running the resumed coroutine of pco: at the lock of its get_value)
                     \*                   | "tail" (at lk.lock() of critical section 2)
           pkind,    \* "push" (publish/close: a tail follows the loop) | "kick" | "none"
+          pnote,    \* P stands at the notify of the blocked thread it has just released (else: right after an unlock)
           pco,      \* subscriber whose coroutine the publisher thread is running (0: none)
-          pdel,     \* subscriber whose coroutine P still has to let run on after get_value (delivery to the caller)
-                    \* before it continues the wake-up loop (0: none) -- same stretch of code as the next PWake
-          call      \* per subscriber thread: form of the next() in progress ("none" | "block" | "poll" | "coro")
+          pdel,     \* subscriber whose coroutine P still has to let run on after get_value (hand-over of the value
+                    \* to the caller) before it continues the wake-up loop (0: none)
+          call,     \* per subscriber thread: form of the next() in progress ("none" | "block" | "poll" | "coro")
+          tailp,    \* per subscriber: its thread has left the critical section of get_value, next() has not returned yet
+          p2pc, p2kind, p2note, wq2    \* the second publishing thread and the waiters ITS critical section collected
 
-cvars == <<ppc, pkind, pco, pdel, call>>
+cvars == <<ppc, pkind, pnote, pco, pdel, call, tailp, p2pc, p2kind, p2note, wq2>>
+p1vars == <<ppc, pkind, pnote, pco, pdel>>
+p2vars == <<p2pc, p2kind, p2note, wq2>>
 allvars == <<vars, cvars>>
 
 CInit == /\ Init
-         /\ ppc = "idle" /\ pkind = "none" /\ pco = 0 /\ pdel = 0
+         /\ ppc = "idle" /\ pkind = "none" /\ pnote = FALSE /\ pco = 0 /\ pdel = 0
          /\ call = [s \in Subs |-> "none"]
+         /\ tailp = [s \in Subs |-> FALSE]
+         /\ p2pc = "idle" /\ p2kind = "none" /\ p2note = FALSE /\ wq2 = <<>>
 
 (* the thread of s is at its command loop: no call in progress, or its coroutine is suspended in next() *)
 ThreadIdle(s) == call[s] = "none" \/ (call[s] = "coro" /\ pc[s] = "parked")
 
 AfterLoop == IF pkind = "push" THEN "tail" ELSE "idle"
+InList(w, s) == \E i \in 1..Len(w) : w[i] = s
 
 -----------------------------------------------------------------------------
 (* subscriber threads *)
 TJoinRecent(s, m) == call[s] = "none" /\ SubscribeRecent(s, m) /\ UNCHANGED cvars
 TJoinAt(s, p, m) == call[s] = "none" /\ SubscribeAt(s, p, m) /\ UNCHANGED cvars
+
 (* CopyWoken: the original may also be copied between the publisher's critical section that collected its
    awaiter and its own get_value (the registration then already points to the value the original is about to
    receive: the `woken` bit of the repaired code tells the copy so) *)
 TJoinCopy(c, o) ==
     /\ call[c] = "none"
     /\ pc[o] = "parked" => (Slot(o).awt = o \/ CopyWoken)
-    /\ pdel # o
+    /\ pdel # o /\ ~tailp[o]
     /\ SubscribeCopy(c, o)
     /\ UNCHANGED cvars
 
 (* ~subscriber; a thread may destroy its subscriber together with the coroutine parked on it *)
 TLeave(s) ==
-    /\ ThreadIdle(s) /\ pco # s /\ pdel # s
+    /\ ThreadIdle(s) /\ pco # s /\ pdel # s /\ ~InList(wq2, s)
     /\ Leave(s)
     /\ call' = [call EXCEPT ![s] = "none"]
-    /\ UNCHANGED <<ppc, pkind, pco, pdel>>
+    /\ UNCHANGED <<p1vars, tailp, p2vars>>
 
 (* first critical section of next(): await_ready() -> advance_lk *)
 TReady(s, st) ==
     /\ st \in (CStyles \cap {"block", "coro"}) /\ call[s] = "none"
+    /\ st = "coro" => ~TwoPub
     /\ Ready(s)
     /\ call' = [call EXCEPT ![s] = st]
-    /\ UNCHANGED <<ppc, pkind, pco, pdel>>
+    /\ UNCHANGED <<p1vars, tailp, p2vars>>
 
 (* await_suspend() / sync(): subscribe() -> advance_suspend_lk *)
 TSubscribe(s) ==
-    /\ call[s] \in {"block", "coro"} /\ pdel # s
+    /\ call[s] \in {"block", "coro"} /\ pdel # s /\ ~tailp[s]
     /\ Subscribe(s)
     /\ UNCHANGED cvars
 
-(* await_resume() -> check_next() -> get_value_lk on the subscriber's own thread *)
+(* await_resume() -> check_next() -> get_value_lk on the subscriber's own thread: the critical section ... *)
 TFetch(s) ==
-    /\ call[s] \in {"block", "coro"} /\ pco # s /\ pdel # s
+    /\ call[s] \in {"block", "coro"} /\ pco # s /\ pdel # s /\ ~tailp[s]
     /\ Fetch(s)
-    /\ call' = [call EXCEPT ![s] = "none"]
-    /\ UNCHANGED <<ppc, pkind, pco, pdel>>
+    /\ tailp' = [tailp EXCEPT ![s] = TRUE]
+    /\ UNCHANGED <<p1vars, call, p2vars>>
 
-(* next_ready(), publisher.h: await_ready(); if ready await_resume() -- two critical sections *)
+(* ... and what follows its unlock up to the return of next() / next_ready() *)
+TTail(s) ==
+    /\ tailp[s]
+    /\ tailp' = [tailp EXCEPT ![s] = FALSE]
+    /\ call' = [call EXCEPT ![s] = "none"]
+    /\ UNCHANGED <<vars, p1vars, p2vars>>
+
+(* next_ready(): await_ready(); if ready await_resume() -- two critical sections *)
 TPollReady(s) ==
     /\ "poll" \in CStyles /\ call[s] = "none" /\ pc[s] = "idle" /\ Slot(s).pos <= pos
     /\ LET r == AdvanceLk(Slot(s), mode[s]) IN
@@ -109,78 +139,115 @@ TPollReady(s) ==
                     ELSE /\ res' = [res EXCEPT ![s] = "notready"]
                          /\ UNCHANGED <<pc, call>>
     /\ UNCHANGED <<pubvars, nextFree, wakeq, hnd, mode, recv, wakes, start, oow, wasKicked, left, plan, njoin, nkick,
-                   ppc, pkind, pco, pdel>>
+                   p1vars, tailp, p2vars>>
 
 TPollFetch(s) ==
-    /\ call[s] = "poll" /\ pc[s] = "fetch"
+    /\ call[s] = "poll" /\ pc[s] = "fetch" /\ ~tailp[s]
     /\ LET g == GetValueLk(Slot(s), mode[s]) IN
          IF g.eos THEN /\ regs' = [regs EXCEPT ![hnd[s] + 1] = g.l]
                        /\ res' = [res EXCEPT ![s] = "notready"]
                        /\ pc' = [pc EXCEPT ![s] = "idle"]
                        /\ UNCHANGED <<recv, wakes>>
                   ELSE Deliver(s, g)
-    /\ call' = [call EXCEPT ![s] = "none"]
-    /\ UNCHANGED <<pubvars, nextFree, wakeq, hnd, mode, start, oow, wasKicked, left, plan, njoin, nkick, ppc, pkind, pco, pdel>>
+    /\ tailp' = [tailp EXCEPT ![s] = TRUE]
+    /\ UNCHANGED <<pubvars, nextFree, wakeq, hnd, mode, start, oow, wasKicked, left, plan, njoin, nkick, p1vars, call, p2vars>>
 
 -----------------------------------------------------------------------------
-(* the publisher thread *)
+(* the publisher thread P: its wake-up list is Publisher.tla's wakeq *)
 PPush(n) ==
     /\ ppc = "idle"
-    /\ PushCS(n)
+    /\ PushBody(n) /\ wakeq' = WakeList
     /\ ppc' = IF wakeq' = <<>> THEN "tail" ELSE "wake"
-    /\ pkind' = "push"
-    /\ UNCHANGED <<pco, pdel, call>>
+    /\ pkind' = "push" /\ pnote' = FALSE
+    /\ UNCHANGED <<pco, pdel, call, tailp, p2vars>>
 
-(* close() on a closed queue returns from its only critical section *)
+(* close() on a closed queue returns from its only critical section; the publisher is destroyed only while
+   the second publishing thread is not inside a call *)
 PClose(how) ==
     /\ ppc = "idle"
-    /\ Close(how)
+    /\ how = "destroy" => p2pc = "idle"
+    /\ CloseBody(how) /\ wakeq' = (IF closed THEN wakeq ELSE WakeList)
     /\ ppc' = IF closed THEN "idle" ELSE IF wakeq' = <<>> THEN "tail" ELSE "wake"
     /\ pkind' = IF closed THEN "none" ELSE "push"
-    /\ UNCHANGED <<pco, pdel, call>>
+    /\ pnote' = FALSE
+    /\ UNCHANGED <<pco, pdel, call, tailp, p2vars>>
 
 PKick(s) ==
     /\ ppc = "idle"
     /\ KickCS(s, "pub")
     /\ ppc' = IF wakeq' = <<>> THEN "idle" ELSE "wake"
-    /\ pkind' = "kick"
-    /\ UNCHANGED <<pco, pdel, call>>
+    /\ pkind' = "kick" /\ pnote' = FALSE
+    /\ UNCHANGED <<pco, pdel, call, tailp, p2vars>>
 
-(* the wake-up loop from where it stands up to the next lock operation of this thread: the blocked
-   threads at the head of the list are released (their flags are set: they are runnable at once); the
-   first coroutine is resumed and runs, on this thread, up to the lock of its get_value *)
-RECURSIVE LeadBlocked(_)
-LeadBlocked(w) == IF w # <<>> /\ call[Head(w)] = "block" THEN 1 + LeadBlocked(Tail(w)) ELSE 0
-
+(* one stretch of the wake-up loop: the coroutine whose get_value P has just run goes on (hands the value to its
+   caller, suspends again), then the next collected waiter is resumed: a blocked thread is released (flag set; P
+   stands at the notify) or a coroutine runs, on this thread, up to the lock of its get_value *)
 PWake ==
-    /\ ppc = "wake" /\ wakeq # <<>>
-    /\ LET k == LeadBlocked(wakeq)
-           rest == SubSeq(wakeq, k + 1, Len(wakeq))
-           woken == {wakeq[i] : i \in 1..k} \cup (IF rest # <<>> THEN {Head(rest)} ELSE {})
-       IN /\ \A s \in woken : pc[s] = "parked"
-          /\ pc' = [s \in Subs |-> IF s \in woken THEN "fetch" ELSE pc[s]]
-          /\ wakes' = [s \in Subs |-> IF s \in woken THEN wakes[s] + 1 ELSE wakes[s]]
-          /\ IF rest # <<>>
-               THEN wakeq' = Tail(rest) /\ pco' = Head(rest) /\ ppc' = "co"
-               ELSE wakeq' = <<>> /\ pco' = 0 /\ ppc' = AfterLoop
+    /\ ppc = "wake" /\ (wakeq # <<>> \/ pdel # 0)
+    /\ call' = [s \in Subs |-> IF s = pdel THEN "none" ELSE call[s]]
     /\ pdel' = 0
-    /\ call' = [s \in Subs |-> IF s = pdel THEN "none" ELSE call[s]]     \* its coroutine has handed the result over
-    /\ UNCHANGED <<pubvars, regs, nextFree, hnd, mode, recv, res, start, oow, wasKicked, left, plan, njoin, nkick, pkind>>
+    /\ IF wakeq = <<>>
+         THEN /\ ppc' = AfterLoop /\ pnote' = FALSE
+              /\ UNCHANGED <<pc, wakes, wakeq, pco>>
+         ELSE LET s == Head(wakeq) IN
+              /\ pc[s] = "parked"
+              /\ pc' = [pc EXCEPT ![s] = "fetch"]
+              /\ wakes' = [wakes EXCEPT ![s] = @ + 1]
+              /\ wakeq' = Tail(wakeq)
+              /\ IF call[s] = "block"
+                   THEN /\ pco' = 0
+                        /\ IF Tail(wakeq) = <<>> THEN ppc' = AfterLoop /\ pnote' = FALSE
+                                                 ELSE ppc' = "wake" /\ pnote' = TRUE
+                   ELSE pco' = s /\ ppc' = "co" /\ pnote' = FALSE
+    /\ UNCHANGED <<pubvars, regs, nextFree, hnd, mode, recv, res, start, oow, wasKicked, left, plan, njoin, nkick, pkind,
+                   tailp, p2vars>>
 
 (* get_value_lk of the resumed coroutine, run by the publisher thread *)
 PFetch ==
     /\ ppc = "co" /\ pco # 0
     /\ Fetch(pco)
-    /\ pco' = 0
-    /\ IF wakeq = <<>> THEN ppc' = AfterLoop /\ pdel' = 0 /\ call' = [call EXCEPT ![pco] = "none"]
-                       ELSE ppc' = "wake" /\ pdel' = pco /\ UNCHANGED call
-    /\ UNCHANGED pkind
+    /\ pco' = 0 /\ pdel' = pco
+    /\ ppc' = "wake" /\ pnote' = FALSE
+    /\ UNCHANGED <<pkind, call, tailp, p2vars>>
 
 (* critical section 2 of publish/close: lk.lock(); std::swap(wk, _wakeup_buffer); ~unique_lock *)
 PTail ==
     /\ ppc = "tail"
     /\ ppc' = "idle" /\ pkind' = "none"
-    /\ UNCHANGED <<vars, pco, pdel, call>>
+    /\ UNCHANGED <<vars, pnote, pco, pdel, call, tailp, p2vars>>
+
+-----------------------------------------------------------------------------
+(* the second publishing thread P2: publish / close; it releases blocked threads only (no coroutine form then) *)
+P2Push(n) ==
+    /\ TwoPub /\ p2pc = "idle"
+    /\ PushBody(n) /\ wq2' = WakeList
+    /\ p2pc' = IF wq2' = <<>> THEN "tail" ELSE "wake"
+    /\ p2kind' = "push" /\ p2note' = FALSE
+    /\ UNCHANGED <<wakeq, p1vars, call, tailp>>
+
+P2Close ==
+    /\ TwoPub /\ p2pc = "idle" /\ ~closed
+    /\ CloseBody("close") /\ wq2' = WakeList
+    /\ p2pc' = IF wq2' = <<>> THEN "tail" ELSE "wake"
+    /\ p2kind' = "push" /\ p2note' = FALSE
+    /\ UNCHANGED <<wakeq, p1vars, call, tailp>>
+
+P2Wake ==
+    /\ p2pc = "wake" /\ wq2 # <<>>
+    /\ LET s == Head(wq2) IN
+         /\ pc[s] = "parked" /\ call[s] = "block"
+         /\ pc' = [pc EXCEPT ![s] = "fetch"]
+         /\ wakes' = [wakes EXCEPT ![s] = @ + 1]
+    /\ wq2' = Tail(wq2)
+    /\ IF Tail(wq2) = <<>> THEN p2pc' = "tail" /\ p2note' = FALSE
+                           ELSE p2pc' = "wake" /\ p2note' = TRUE
+    /\ UNCHANGED <<pubvars, regs, nextFree, wakeq, hnd, mode, recv, res, start, oow, wasKicked, left, plan, njoin, nkick,
+                   p1vars, call, tailp, p2kind>>
+
+P2Tail ==
+    /\ p2pc = "tail"
+    /\ p2pc' = "idle" /\ p2kind' = "none"
+    /\ UNCHANGED <<vars, p1vars, call, tailp, p2note, wq2>>
 
 CNext == \/ \E s \in Subs, m \in Modes : TJoinRecent(s, m)
          \/ \E s \in Subs, p \in AtPos, m \in Modes : TJoinAt(s, p, m)
@@ -189,6 +256,7 @@ CNext == \/ \E s \in Subs, m \in Modes : TJoinRecent(s, m)
          \/ \E s \in Subs, st \in {"block", "coro"} : TReady(s, st)
          \/ \E s \in Subs : TSubscribe(s)
          \/ \E s \in Subs : TFetch(s)
+         \/ \E s \in Subs : TTail(s)
          \/ \E s \in Subs : TPollReady(s)
          \/ \E s \in Subs : TPollFetch(s)
          \/ \E n \in 1..MaxBatch : PPush(n)
@@ -197,27 +265,53 @@ CNext == \/ \E s \in Subs, m \in Modes : TJoinRecent(s, m)
          \/ PWake
          \/ PFetch
          \/ PTail
+         \/ \E n \in 1..MaxBatch : P2Push(n)
+         \/ P2Close
+         \/ P2Wake
+         \/ P2Tail
 
 CSpec == CInit /\ [][CNext]_allvars
 
 -----------------------------------------------------------------------------
-(* thread-level invariants (the C16 invariants of Publisher.tla are listed in the cfg as well) *)
+(* thread-level invariants; the C16 invariants of Publisher.tla are listed in the cfg as well, those that speak
+   about "the" wake-up list in the two-list form below *)
 ThreadsOK ==
-    /\ ppc \in {"idle", "wake", "co", "tail"}
+    /\ ppc \in {"idle", "wake", "co", "tail"} /\ p2pc \in {"idle", "wake", "tail"}
     /\ (ppc = "idle") => (wakeq = <<>> /\ pco = 0 /\ pdel = 0)
+    /\ (p2pc \in {"idle", "tail"}) => wq2 = <<>>
     /\ (ppc = "co") <=> (pco # 0)
     /\ pco # 0 => (pc[pco] = "fetch" /\ call[pco] = "coro")
     /\ pdel # 0 => ppc = "wake"
-    /\ \A s \in Subs : /\ call[s] = "none" => pc[s] \in {"unborn", "idle", "eos"}
-                       /\ call[s] = "poll" => pc[s] = "fetch"
-                       /\ (call[s] \in {"block", "coro"} /\ pdel # s) => pc[s] \in {"nr", "fetch", "parked"}
-                       /\ pdel = s => (call[s] = "coro" /\ pc[s] \in {"idle", "eos"})
+    /\ \A s \in Subs : /\ call[s] = "none" => (pc[s] \in {"unborn", "idle", "eos"} /\ ~tailp[s])
+                       /\ (call[s] = "poll" /\ ~tailp[s]) => pc[s] = "fetch"
+                       /\ (call[s] \in {"block", "coro"} /\ pdel # s /\ ~tailp[s]) => pc[s] \in {"nr", "fetch", "parked"}
+                       /\ (pdel = s \/ tailp[s]) => (call[s] # "none" /\ pc[s] \in {"idle", "eos"})
+                       /\ ~(InList(wakeq, s) /\ InList(wq2, s))
 
-(* a thread blocked in next() (or a parked coroutine) is released by somebody: it is registered, or
-   collected in the publisher's wake-up list while the publisher thread is still in its loop *)
+(* a thread blocked in next() (or a parked coroutine) is released by somebody: it is registered, or it is in the
+   wake-up list of a publishing thread that is still in its loop -- in exactly one of them, once *)
 NobodyForgotten ==
     \A s \in Subs : pc[s] = "parked" =>
-        \/ Slot(s).awt = s
-        \/ (\E i \in 1..Len(wakeq) : wakeq[i] = s) /\ ppc \in {"wake", "co"}
+        \/ Slot(s).awt = s /\ ~InList(wakeq, s) /\ ~InList(wq2, s)
+        \/ InList(wakeq, s) /\ ppc \in {"wake", "co"} /\ Slot(s).awt = 0
+        \/ InList(wq2, s) /\ p2pc = "wake" /\ Slot(s).awt = 0
+
+WokenOnce ==
+    /\ \A s \in Subs : wakes[s] <= 1
+    /\ \A i, j \in 1..Len(wakeq) : i # j => wakeq[i] # wakeq[j]
+    /\ \A i, j \in 1..Len(wq2) : i # j => wq2[i] # wq2[j]
+    /\ \A i \in 1..Len(wakeq) : pc[wakeq[i]] = "parked"
+    /\ \A i \in 1..Len(wq2) : pc[wq2[i]] = "parked"
+
+(* Publisher.tla's CloseWakesAll / NoLostWaiter with both lists *)
+CloseWakesAll2 ==
+    /\ (closed /\ wakeq = <<>> /\ wq2 = <<>>) => \A s \in Subs : pc[s] \notin Parked
+    /\ \A s \in Subs : (pc[s] \in Parked /\ Slot(s).kicked) => (InList(wakeq, s) \/ InList(wq2, s))
+NoLostWaiter2 ==
+    /\ \A s \in Subs : pc[s] \in Parked =>
+          \/ Slot(s).awt = s /\ Slot(s).pos = pos
+          \/ InList(wakeq, s) \/ InList(wq2, s)
+    /\ \A i \in 1..Len(regs) : (regs[i].used /\ regs[i].awt # 0) =>
+          pc[regs[i].awt] \in Parked /\ hnd[regs[i].awt] = i - 1
 
 =============================================================================
